@@ -353,9 +353,10 @@ def check_one(o, axioms, timeout_ms, rlimit=None, want_model=True):
 
 # z3 resource units that correspond to about one second of solving on an idle core of this machine (calibrated on the
 # slowest obligations of the unchanged tree, see DESIGN section 16)
-RLIMIT_PER_S = int(os.environ.get('VERIF_RLIMIT_PER_S', '5000000'))
+RLIMIT_PER_S = int(os.environ.get('VERIF_RLIMIT_PER_S', '3000000'))
 
-RL_STATE = {'last': 0, 'max_call': 0}
+RL_STATE = {'last': 0, 'max_call': 0, 'func_used': 0}
+FUNC_BUDGET = 25 * RLIMIT_PER_S           # overall z3 resource budget of one function (one process per function)
 
 ATTEMPTS = (('default', {}), ('ematch', {'auto_config': False, 'smt.mbqi': False}),
             ('seed7', {'smt.random_seed': 7}), ('seed23-ematch', {'auto_config': False, 'smt.mbqi': False,
@@ -367,11 +368,14 @@ def _check(o, axioms, goal, timeout_ms, want_model=True):
     counter-model."""
     r = model = s = None
     ms = 0.0
-    for attempt, opts in ATTEMPTS:
+    # a function that has already used up its overall budget (only possible on changed code: the unchanged tree needs
+    # a sixth of it for its most expensive function) gets one short attempt per remaining obligation
+    exhausted = RL_STATE.get('func_used', 0) > FUNC_BUDGET
+    for attempt, opts in (ATTEMPTS[:1] if exhausted else ATTEMPTS):
         s = z3.Solver()
         # budget: z3's deterministic resource counter (the verdict then does not depend on how busy the machine is);
         # the wall-clock limit is only a safety net, eight times what the budget needs on an idle core
-        budget = RLIMIT_PER_S * timeout_ms // 1000
+        budget = RLIMIT_PER_S * timeout_ms // 1000 if not exhausted else RLIMIT_PER_S * 2
         s.set('rlimit', budget if attempt == 'default' else max(budget // 2, RLIMIT_PER_S * 2))
         s.set('timeout', 8 * (timeout_ms if attempt == 'default' else max(2000, timeout_ms // 2)))
         for k, v in opts.items():
@@ -388,6 +392,7 @@ def _check(o, axioms, goal, timeout_ms, want_model=True):
         try:
             now = s.statistics().get_key_value('rlimit count')     # cumulative over the process
             RL_STATE['max_call'] = max(RL_STATE['max_call'], now - RL_STATE['last'])
+            RL_STATE['func_used'] = RL_STATE.get('func_used', 0) + (now - RL_STATE['last'])
             RL_STATE['last'] = now
         except Exception:  # noqa
             pass
@@ -426,11 +431,14 @@ def cvc5_check(solver, timeout_s):
         os.unlink(path)
 
 
-def discharge(obls, axioms, timeout_ms=10000, use_cvc5=True):
+def discharge(obls, axioms, timeout_ms=10000, use_cvc5=True, stop_at_first=False):
     """Aggregates path instances by obligation name. An obligation is discharged iff every instance is unsat
     (or sat for cover obligations)."""
     results = {}
     for o in obls:
+        # (self-test of a deliberately broken function: one obligation that is not discharged is all that is asked for)
+        if stop_at_first and any(r_.status not in ('discharged', 'vacuous') for r_ in results.values()):
+            break
         res = results.get(o.name)
         if res is None:
             res = results[o.name] = Result(o.name, o.kind, o.tag)
@@ -452,7 +460,7 @@ def discharge(obls, axioms, timeout_ms=10000, use_cvc5=True):
             continue
         if r == z3.unsat:
             continue
-        if r == z3.unknown and use_cvc5:
+        if r == z3.unknown and use_cvc5 and RL_STATE.get('func_used', 0) <= FUNC_BUDGET:
             t0 = time.time()
             r2, info = cvc5_check(solver, timeout_ms / 1000.0)
             res.ms += (time.time() - t0) * 1000
@@ -478,10 +486,11 @@ def discharge(obls, axioms, timeout_ms=10000, use_cvc5=True):
     return list(results.values())
 
 
-def verify_function(db, key, timeout_ms=10000, use_cvc5=True):
+def verify_function(db, key, timeout_ms=10000, use_cvc5=True, stop_at_first=False):
     """Returns dict(key, status, results[], error, npaths, source_hash, assumed)."""
     t0 = time.time()
     out = dict(key=key, results=[], error=None, npaths=0, assumed=[], wall_s=0.0)
+    RL_STATE['func_used'] = 0
     try:
         out['source_hash'] = db.source_hash(key)
         eng = FuncRun(db, key, db.root)
@@ -489,7 +498,7 @@ def verify_function(db, key, timeout_ms=10000, use_cvc5=True):
         out['npaths'] = eng.npaths
         out['assumed'] = sorted(set(eng.assumed))
         axioms = list(db.axioms) + [T.str_distinct_axiom()] + T.col_axioms()
-        res = discharge(obls, axioms, timeout_ms, use_cvc5)
+        res = discharge(obls, axioms, timeout_ms, use_cvc5, stop_at_first)
         out['results'] = res
         out['engine'] = eng
     except Unsupported as e:
